@@ -61,8 +61,72 @@ def public_wrappers(p):
     for f in p.funcs.values():
         if f.module is m and f.parent is None and any(norm(d) == "api" for d in f.node.decorator_list):
             out.append(f)
+    out += generated_wrappers(p, m)
     if len(out) < 40:
         raise AnalysisError(f"anchor vanished: expected >= 40 @api wrappers in frontend/ops.py, found {len(out)}")
+    return out
+
+
+_GENERATED = {}
+
+
+def generated_wrappers(p, m):
+    """`name = _make_op("name", ...)` at module level, where the factory defines an `@api` function and returns it: the
+    wrapper as it exists under the public name (factory parameters replaced by the arguments of that call)"""
+    from sa.cfg import _clone, _set_parents
+    from sa.core import Func
+
+    if id(p) in _GENERATED:
+        return _GENERATED[id(p)]
+    out = []
+    for st in m.tree.body:
+        if not (isinstance(st, ast.Assign) and len(st.targets) == 1 and isinstance(st.targets[0], ast.Name) and isinstance(st.value, ast.Call)):
+            continue
+        r = resolve_callee(p, st.value, m)
+        if not (r and r[0] == "func" and r[1].module is m and r[1].parent is None):
+            continue
+        fac = r[1]
+        inner = [g for g in p.funcs.values() if g.parent is fac and any(norm(d) == "api" for d in g.node.decorator_list)]
+        rets = [x for x in walk_no_nested(fac.node) if isinstance(x, ast.Return) and isinstance(x.value, ast.Name)]
+        if len(inner) != 1 or len(rets) != 1 or rets[0].value.id != inner[0].name:
+            continue
+        call = st.value
+        if any(isinstance(a, ast.Starred) for a in call.args) or any(k.arg is None for k in call.keywords):
+            continue
+        params = fac.params
+        mapping = {}
+        for i, a in enumerate(call.args):
+            if i < len(params):
+                mapping[params[i]] = a
+        for k in call.keywords:
+            mapping[k.arg] = k.value
+        node = _clone(inner[0].node)
+
+        class Sub(ast.NodeTransformer):
+            def visit_Name(self, n):
+                if isinstance(n.ctx, ast.Load) and n.id in mapping:
+                    return ast.copy_location(_clone(mapping[n.id]), n)
+                return n
+
+        node.body = [Sub().visit(b) for b in node.body]
+        # getattr(backend, "name") reads as backend.name
+        class G(ast.NodeTransformer):
+            def visit_Call(self, c):
+                self.generic_visit(c)
+                if isinstance(c.func, ast.Name) and c.func.id == "getattr" and len(c.args) == 2 and isinstance(c.args[1], ast.Constant) and isinstance(c.args[1].value, str) and c.args[1].value.isidentifier():
+                    return ast.copy_location(ast.Attribute(value=c.args[0], attr=c.args[1].value, ctx=ast.Load()), c)
+                return c
+
+        node.body = [G().visit(b) for b in node.body]
+        node.name = st.targets[0].id
+        node.lineno = st.lineno
+        ast.fix_missing_locations(node)
+        _set_parents(node)
+        node._parent = m.tree
+        f = Func(qualname=f"{m.name}::{node.name}", module=m, node=node, cls=None, parent=None)
+        p.func_of_node[id(node)] = f
+        out.append(f)
+    _GENERATED[id(p)] = out
     return out
 
 
@@ -466,8 +530,14 @@ def _selector(fnode, value, depth=0, p=None, module=None):
         for x in ast.walk(e):
             if isinstance(x, ast.Name):
                 for a in walk_no_nested(fnode):
-                    if isinstance(a, ast.Assign) and any(isinstance(t, ast.Name) and t.id == x.id for t in a.targets) and a.value is not e and any(isinstance(y, (ast.Attribute, ast.Name)) and norm(y).endswith("ConcatenatedAxis") for y in ast.walk(a.value)):
-                        return True
+                    if isinstance(a, ast.Assign) and any(isinstance(t, ast.Name) and t.id == x.id for t in a.targets) and a.value is not e:
+                        if any(isinstance(y, (ast.Attribute, ast.Name)) and norm(y).endswith("ConcatenatedAxis") for y in ast.walk(a.value)):
+                            return True
+                        # ... or collected by a helper of the module (`concat_axes = _concatenated_axes(expr)`)
+                        if p is not None and isinstance(a.value, ast.Call):
+                            rr = resolve_callee(p, a.value, module)
+                            if rr and rr[0] == "func" and any(isinstance(y, (ast.Attribute, ast.Name)) and norm(y).endswith("ConcatenatedAxis") for y in ast.walk(rr[1].node)):
+                                return True
         return False
 
     if isinstance(value, ast.Subscript) and isinstance(value.slice, ast.Constant) and mentions_concat(value.value):
